@@ -161,54 +161,83 @@ class Kit:
 
 
 # ======================================================== part (a): scenarios
+PLACES = ("mid", "start", "end", "whole")
+
+
 class Scenario:
-    """One position reached through one public path.  fn(kit, s, box) supplies the string s
-    and leaves the transport in box[0]; an exception means `refused`."""
+    """One position reached through one public path.  fn(kit, token, box) supplies the token and
+    leaves the transport in box[0]; an exception means `refused`.  ctx = (a, b): harmless characters
+    of the same token around the supplied string; the string is placed in the middle (a+s+b), at
+    the start (s+b), at the end (a+s) or is the whole token (s).  ctx=None: the string is always
+    the whole token (or the function places it itself)."""
 
     def __init__(self, name: str, pos: str, enc: str, fn: Callable[[Kit, str, List[Any]], Any],
-                 tbl: bool = True, whole: bool = False, special: str = "", unit: str = "head") -> None:
+                 tbl: bool = True, whole: bool = False, special: str = "", unit: str = "head",
+                 ctx: Optional[Tuple[str, str]] = None) -> None:
         self.name, self.pos, self.enc, self.fn, self.tbl = name, pos, enc, fn, tbl
         self.unit = unit            # "head": the bytes are a message head; "body": part head inside a body
-        self.whole = whole          # the supplied string is the whole token (may not be empty)
+        self.ctx = ctx
+        self.whole = whole or False  # the supplied string may not be empty
         self.special = special
-        self.tmpl: Optional[dict] = None
+        self.tmpl: Dict[str, Optional[dict]] = {}
 
-    def execute(self, kit: Kit, s: str) -> Tuple[str, bytes, str, Any]:
+    @property
+    def places(self) -> Tuple[str, ...]:
+        return PLACES if self.ctx is not None else ("whole",)
+
+    @property
+    def default_place(self) -> str:
+        return "mid" if self.ctx is not None else "whole"
+
+    def token(self, s: str, place: str) -> str:
+        if self.ctx is None:
+            return s
+        a, b = self.ctx
+        return {"mid": a + s + b, "start": s + b, "end": a + s, "whole": s}[place]
+
+    def execute(self, kit: Kit, s: str, place: str) -> Tuple[str, bytes, str, Any]:
         box: List[Any] = []
         try:
-            extra = kit.run(self.fn(kit, s, box))
+            extra = kit.run(self.fn(kit, self.token(s, place), box))
             out, exc = "emitted", ""
         except Exception as e:  # noqa: BLE001 - any exception is a refusal; zero bytes is what matters
             out, exc, extra = "refused", type(e).__name__, None
         wire = bytes(box[0].written) if box else b""
         return out, wire, exc, extra
 
-    def template(self, kit: Kit) -> dict:
-        if self.tmpl is not None:
-            return self.tmpl
-        out, wire, exc, extra = self.execute(kit, MARK)
-        if out != "emitted":
-            raise MachineryError(f"scenario {self.name}: harmless string refused ({exc})")
+    def template(self, kit: Kit, place: Optional[str] = None) -> Optional[dict]:
+        """Where the string sits in the head, learnt from one run with a harmless marker.
+        None: this placement cannot be expressed in this scenario (the marker run is refused)."""
+        place = place or self.default_place
+        if place in self.tmpl:
+            return self.tmpl[place]
+        out, wire, exc, extra = self.execute(kit, MARK, place)
         head, sep, body = wire.partition(b"\r\n\r\n")
-        if not sep:
-            raise MachineryError(f"scenario {self.name}: no head end in {wire!r}")
-        lines = head.split(b"\r\n")
-        if self.special == "target":
-            idx, pre, post = 0, b"GET ", b" HTTP/1.1"
-        else:
-            mark = {"upper": MARKB.upper(), "lower": MARKB.lower()}.get(self.special, MARKB)
-            hits = [k for k, ln in enumerate(lines) if mark in ln]
-            if len(hits) != 1 or lines[hits[0]].count(mark) != 1:
-                raise MachineryError(f"scenario {self.name}: marker placement unclear in {lines!r}")
-            idx = hits[0]
-            pre, _, post = lines[idx].partition(mark)
-        self.tmpl = {"line": idx + 1, "pre": pre, "post": post, "nfields": len(lines) - 1, "body": body}
-        return self.tmpl
+        t: Optional[dict] = None
+        if out == "emitted" and sep:
+            lines = head.split(b"\r\n")
+            if self.special == "target":
+                t = {"line": 1, "pre": b"GET ", "post": b" HTTP/1.1"}
+            else:
+                mark = {"upper": MARKB.upper(), "lower": MARKB.lower()}.get(self.special, MARKB)
+                hits = [k for k, ln in enumerate(lines) if mark in ln]
+                if len(hits) == 1 and lines[hits[0]].count(mark) == 1:
+                    pre, _, post = lines[hits[0]].partition(mark)
+                    t = {"line": hits[0] + 1, "pre": pre, "post": post}
+            if t is not None:
+                t.update({"nfields": len(lines) - 1, "body": body})
+        if t is None and place == self.default_place:
+            raise MachineryError(f"scenario {self.name}: harmless string not placed ({out} {exc} {wire[:80]!r})")
+        self.tmpl[place] = t
+        return t
 
-    def event(self, kit: Kit, cps: Sequence[int], tbl: bool) -> dict:
-        t = self.template(kit)
+    def event(self, kit: Kit, cps: Sequence[int], tbl: bool, place: Optional[str] = None) -> Optional[dict]:
+        place = place or self.default_place
+        t = self.template(kit, place)
+        if t is None:
+            return None
         s = G.to_str(cps)
-        out, wire, exc, extra = self.execute(kit, s)
+        out, wire, exc, extra = self.execute(kit, s, place)
         pre, post, enc, sup, body = t["pre"], t["post"], self.enc, list(cps), t["body"]
         if out == "emitted":
             if self.special == "target":
@@ -221,10 +250,11 @@ class Scenario:
                 body = body.replace(MARKB, s.encode("ascii", "replace"))
             if enc != "raw":
                 pre, post, enc = _adapt_encoding(wire, t, enc)
-        return {"ev": "ser", "scen": self.name, "out": out, "exc": exc, "wire": list(wire), "sup": sup, "enc": enc,
-                "orig": list(cps), "unit": self.unit,
+        return {"ev": "ser", "scen": self.name, "place": place, "out": out, "exc": exc, "wire": list(wire),
+                "sup": sup, "enc": enc, "orig": list(cps), "unit": self.unit,
                 "line": t["line"], "pre": list(pre), "post": list(post), "nfields": t["nfields"],
-                "body": list(body), "pos": self.pos, "cls": G.classes_of(cps), "tbl": bool(tbl and self.tbl)}
+                "body": list(body), "pos": self.pos, "cls": G.classes_of(cps) if (tbl and self.tbl) else [],
+                "tbl": bool(tbl and self.tbl)}
 
 
 def _adapt_encoding(wire: bytes, t: dict, enc: str) -> Tuple[bytes, bytes, str]:
@@ -254,7 +284,7 @@ def build_scenarios() -> List[Scenario]:
 
     # ---------------- client start line and headers
     async def c_method(kit: Kit, s: str, box: List[Any]) -> Any:
-        await kit.client_send(kit.client_req("Q" + s + "Z"), box)
+        await kit.client_send(kit.client_req(s), box)
 
     async def c_target(kit: Kit, s: str, box: List[Any]) -> Any:
         req = kit.client_req("GET", "http://h/p" + s + "q?k" + s + "=" + s)
@@ -267,16 +297,16 @@ def build_scenarios() -> List[Scenario]:
         return req.url.raw_path_qs
 
     async def c_name(kit: Kit, s: str, box: List[Any]) -> Any:
-        await kit.client_send(kit.client_req("GET", headers=kit.CIMultiDict({"X-" + s + "N": "v"})), box)
+        await kit.client_send(kit.client_req("GET", headers=kit.CIMultiDict({s: "v"})), box)
 
     async def c_value(kit: Kit, s: str, box: List[Any]) -> Any:
-        await kit.client_send(kit.client_req("GET", headers=kit.CIMultiDict({"X-N": "v" + s + "w"})), box)
+        await kit.client_send(kit.client_req("GET", headers=kit.CIMultiDict({"X-N": s})), box)
 
     async def c_cookie_name(kit: Kit, s: str, box: List[Any]) -> Any:
         from aiohttp import CookieJar
         j = CookieJar()
         u = kit.URL("http://h/")
-        j.update_cookies({"n" + s + "m": "v"}, u)
+        j.update_cookies({s: "v"}, u)
         await kit.client_send(kit.client_req("GET", cookies=j.filter_cookies(u)), box)
 
     async def c_cookie_value(kit: Kit, s: str, box: List[Any]) -> Any:
@@ -288,12 +318,12 @@ def build_scenarios() -> List[Scenario]:
 
     async def c_payload_header(kit: Kit, s: str, box: List[Any]) -> Any:
         from aiohttp import payload
-        p = payload.BytesPayload(b"x", headers={"X-N": "v" + s + "w"})
+        p = payload.BytesPayload(b"x", headers={"X-N": s})
         await kit.client_send(kit.client_req("POST", data=p), box)
 
     async def c_mp_subtype(kit: Kit, s: str, box: List[Any]) -> Any:
         from aiohttp import MultipartWriter
-        mp = MultipartWriter("mi" + s + "xed", boundary="B")
+        mp = MultipartWriter(s, boundary="B")
         mp.append(b"x")
         await kit.client_send(kit.client_req("POST", data=mp), box)
 
@@ -303,15 +333,15 @@ def build_scenarios() -> List[Scenario]:
         mp.append(b"x")
         await kit.client_send(kit.client_req("POST", data=mp), box)
 
-    S += [Scenario("client.method", "method", "raw", c_method, special="upper"),
+    S += [Scenario("client.method", "method", "raw", c_method, special="upper", ctx=('Q', 'Z')),
           Scenario("client.target", "", "raw", c_target, tbl=False, special="target"),
           Scenario("client.target-encoded", "", "raw", c_target_raw, tbl=False, special="target"),
-          Scenario("client.header-name", "name", "raw", c_name),
-          Scenario("client.header-value", "value", "raw", c_value),
-          Scenario("client.cookie-name", "cookie-name", "raw", c_cookie_name),
+          Scenario("client.header-name", "name", "raw", c_name, ctx=('X-', 'N')),
+          Scenario("client.header-value", "value", "raw", c_value, ctx=('v', 'w')),
+          Scenario("client.cookie-name", "cookie-name", "raw", c_cookie_name, ctx=('n', 'm')),
           Scenario("client.cookie-value", "cookie-value", "cookie", c_cookie_value, whole=True),
-          Scenario("client.payload-header", "value", "raw", c_payload_header),
-          Scenario("client.multipart-subtype", "content-type", "raw", c_mp_subtype),
+          Scenario("client.payload-header", "value", "raw", c_payload_header, ctx=('v', 'w')),
+          Scenario("client.multipart-subtype", "content-type", "raw", c_mp_subtype, ctx=('mi', 'xed')),
           Scenario("client.multipart-boundary", "", "tokq", c_mp_boundary, tbl=False, whole=True, special="boundary")]
 
     # ---------------- server status line, headers, cookies
@@ -329,24 +359,24 @@ def build_scenarios() -> List[Scenario]:
         return _web
 
     def r_reason(kit: Kit, s: str) -> Any:
-        return web().Response(reason="O" + s + "K")
+        return web().Response(reason=s)
 
     def r_set_status(kit: Kit, s: str) -> Any:
         r = web().StreamResponse()
-        r.set_status(200, "O" + s + "K")
+        r.set_status(200, s)
         return r
 
     def r_name(kit: Kit, s: str) -> Any:
-        return web().Response(headers={"X-" + s + "N": "v"})
+        return web().Response(headers={s: "v"})
 
     def r_value(kit: Kit, s: str) -> Any:
         r = web().StreamResponse()
-        r.headers["X-N"] = "v" + s + "w"
+        r.headers["X-N"] = s
         return r
 
     def r_cookie_name(kit: Kit, s: str) -> Any:
         r = web().Response()
-        r.set_cookie("n" + s + "m", "v")
+        r.set_cookie(s, "v")
         return r
 
     def r_cookie_value(kit: Kit, s: str) -> Any:
@@ -356,45 +386,45 @@ def build_scenarios() -> List[Scenario]:
 
     def r_cookie_path(kit: Kit, s: str) -> Any:
         r = web().Response()
-        r.set_cookie("n", "v", path="/p" + s + "q")
+        r.set_cookie("n", "v", path=s)
         return r
 
     def r_cookie_domain(kit: Kit, s: str) -> Any:
         r = web().Response()
-        r.set_cookie("n", "v", domain="d" + s + "e")
+        r.set_cookie("n", "v", domain=s)
         return r
 
     def r_cookie_samesite(kit: Kit, s: str) -> Any:
         r = web().Response()
-        r.set_cookie("n", "v", samesite="La" + s + "x")
+        r.set_cookie("n", "v", samesite=s)
         return r
 
     def r_ctype_arg(kit: Kit, s: str) -> Any:
-        return web().Response(text="x", content_type="text/p" + s + "q")
+        return web().Response(text="x", content_type=s)
 
     def r_ctype_setter(kit: Kit, s: str) -> Any:
         r = web().StreamResponse()
-        r.content_type = "text/p" + s + "q"
+        r.content_type = s
         return r
 
     def r_charset_setter(kit: Kit, s: str) -> Any:
         r = web().StreamResponse()
         r.content_type = "text/plain"
-        r.charset = "u" + s + "8"
+        r.charset = s
         return r
 
-    S += [Scenario("server.reason", "reason", "raw", srv(r_reason)),
-          Scenario("server.set_status-reason", "reason", "raw", srv(r_set_status)),
-          Scenario("server.header-name", "name", "raw", srv(r_name)),
-          Scenario("server.header-value", "value", "raw", srv(r_value)),
-          Scenario("server.set_cookie-name", "cookie-name", "raw", srv(r_cookie_name)),
+    S += [Scenario("server.reason", "reason", "raw", srv(r_reason), ctx=('O', 'K')),
+          Scenario("server.set_status-reason", "reason", "raw", srv(r_set_status), ctx=('O', 'K')),
+          Scenario("server.header-name", "name", "raw", srv(r_name), ctx=('X-', 'N')),
+          Scenario("server.header-value", "value", "raw", srv(r_value), ctx=('v', 'w')),
+          Scenario("server.set_cookie-name", "cookie-name", "raw", srv(r_cookie_name), ctx=('n', 'm')),
           Scenario("server.set_cookie-value", "cookie-value", "cookie", srv(r_cookie_value), whole=True),
-          Scenario("server.set_cookie-path", "cookie-attr", "raw", srv(r_cookie_path)),
-          Scenario("server.set_cookie-domain", "cookie-attr", "raw", srv(r_cookie_domain)),
-          Scenario("server.set_cookie-samesite", "cookie-attr", "raw", srv(r_cookie_samesite)),
-          Scenario("server.content_type-arg", "content-type", "raw", srv(r_ctype_arg)),
-          Scenario("server.content_type-setter", "content-type", "raw", srv(r_ctype_setter)),
-          Scenario("server.charset-setter", "", "raw", srv(r_charset_setter), tbl=False, special="lower")]
+          Scenario("server.set_cookie-path", "cookie-attr", "raw", srv(r_cookie_path), ctx=('/p', 'q')),
+          Scenario("server.set_cookie-domain", "cookie-attr", "raw", srv(r_cookie_domain), ctx=('d', 'e')),
+          Scenario("server.set_cookie-samesite", "cookie-attr", "raw", srv(r_cookie_samesite), ctx=('La', 'x')),
+          Scenario("server.content_type-arg", "content-type", "raw", srv(r_ctype_arg), ctx=('text/p', 'q')),
+          Scenario("server.content_type-setter", "content-type", "raw", srv(r_ctype_setter), ctx=('text/p', 'q')),
+          Scenario("server.charset-setter", "", "raw", srv(r_charset_setter), tbl=False, special="lower", ctx=('u', '8'))]
 
     # ---------------- multipart part heads / FormData (written through a real StreamWriter)
     def body(make: Callable[[Kit, str], Any]) -> Callable:
@@ -411,18 +441,18 @@ def build_scenarios() -> List[Scenario]:
 
     def p_name(kit: Kit, s: str) -> Any:
         mp = mpw()
-        mp.append(b"x", {"X-" + s + "N": "v"})
+        mp.append(b"x", {s: "v"})
         return mp
 
     def p_value(kit: Kit, s: str) -> Any:
         mp = mpw()
-        mp.append(b"x", {"X-N": "v" + s + "w"})
+        mp.append(b"x", {"X-N": s})
         return mp
 
     def p_ctype(kit: Kit, s: str) -> Any:
         from aiohttp import payload
         mp = mpw()
-        mp.append(payload.BytesPayload(b"x", content_type="t/p" + s + "q"))
+        mp.append(payload.BytesPayload(b"x", content_type=s))
         return mp
 
     def p_disp_param(kit: Kit, s: str) -> Any:
@@ -468,19 +498,19 @@ def build_scenarios() -> List[Scenario]:
     def f_ctype(kit: Kit, s: str) -> Any:
         from aiohttp import FormData
         fd = FormData(boundary="B")
-        fd.add_field("n", b"x", content_type="t/p" + s + "q")
+        fd.add_field("n", b"x", content_type=s)
         return fd()
 
-    S += [Scenario("multipart.part-header-name", "part-name", "raw", body(p_name), unit="body"),
-          Scenario("multipart.part-header-value", "part-value", "raw", body(p_value), unit="body"),
-          Scenario("payload.content_type", "content-type", "raw", body(p_ctype), unit="body"),
+    S += [Scenario("multipart.part-header-name", "part-name", "raw", body(p_name), unit="body", ctx=('X-', 'N')),
+          Scenario("multipart.part-header-value", "part-value", "raw", body(p_value), unit="body", ctx=('v', 'w')),
+          Scenario("payload.content_type", "content-type", "raw", body(p_ctype), unit="body", ctx=('t/p', 'q')),
           Scenario("payload.disposition-param", "", "qs", body(p_disp_param), tbl=False, whole=True, unit="body"),
           Scenario("payload.disposition-filename", "", "pct", body(p_disp_filename), tbl=False, whole=True, unit="body"),
           Scenario("formdata.name", "form-name", "qs", body(f_name), whole=True, unit="body"),
           Scenario("formdata.name-unquoted", "", "qs", body(f_name_nq), tbl=False, whole=True, unit="body"),
           Scenario("formdata.filename", "form-filename", "pct", body(f_filename), whole=True, unit="body"),
           Scenario("formdata.filename-unquoted", "", "qs", body(f_filename_nq), tbl=False, whole=True, unit="body"),
-          Scenario("formdata.content_type", "content-type", "raw", body(f_ctype), unit="body")]
+          Scenario("formdata.content_type", "content-type", "raw", body(f_ctype), unit="body", ctx=('t/p', 'q'))]
     return S
 
 
@@ -491,6 +521,40 @@ HEAD_BYTES = b"HTTP/1.1 200 OK\r\nL: x\r\n\r\n"
 
 def letters(start: int, n: int) -> bytes:
     return bytes(97 + ((start + k) % 26) for k in range(n))
+
+
+def as_form(data: bytes, form: str) -> Tuple[Any, str]:
+    """The same bytes behind another buffer type accepted by write()/write_eof()."""
+    import array
+    n = len(data)
+    if form == "bytearray":
+        return bytearray(data), form
+    if form == "mv":
+        return memoryview(data), form
+    if form in ("mvH", "mvI", "mvQ") and n:
+        a = array.array(form[2])
+        if n % a.itemsize == 0:
+            a.frombytes(data)
+            return memoryview(a), form               # len() counts items, nbytes counts bytes
+    if form == "mv2d" and n >= 2 and n % 2 == 0:
+        return memoryview(data).cast("B", shape=[2, n // 2]), form
+    if form == "mvc" and n:
+        return memoryview(data).cast("c"), form
+    return data, "bytes"
+
+
+def choose_form(n: int, salt: int, eof: bool = False) -> str:
+    """An exotic but legal buffer form for n bytes; salt rotates through the applicable ones.
+    write_eof() is documented for bytes only (StreamResponse.write_eof also lets byte-like objects
+    through): it gets the forms whose len() is their byte count."""
+    if salt < 0:
+        return "bytes"
+    wide = not eof
+    cands = [f for f, ok in (("mvQ", wide and n and n % 8 == 0), ("mvI", wide and n and n % 4 == 0),
+                             ("mvH", wide and n and n % 2 == 0), ("mv2d", wide and n >= 2 and n % 2 == 0),
+                             ("mv", True), ("bytearray", True), ("mvc", n > 0))
+             if ok]
+    return cands[salt % len(cands)]
 
 
 class OpsExec:
@@ -511,10 +575,11 @@ class OpsExec:
         self.events: List[dict] = []
         self.napp = 0
 
-    def call(self, op: str, n: int = 0, big: bool = False) -> dict:
+    def call(self, op: str, n: int = 0, big: bool = False, form: str = "bytes") -> dict:
         kit, w = self.kit, self.w
-        data = letters(self.napp, n) if op in ("write", "write_eof") else b""
-        self.napp += len(data)
+        raw = letters(self.napp, n) if op in ("write", "write_eof") else b""
+        self.napp += len(raw)
+        data, form = as_form(raw, form)
         before = len(self.tr.writes)
         err = ""
         blocked = False
@@ -554,7 +619,7 @@ class OpsExec:
                 task.result()
             except Exception as e:  # noqa: BLE001
                 err = type(e).__name__
-        ev = {"ev": "op", "op": op, "data": list(data), "big": bool(big), "wlen": len(self.tr.written),
+        ev = {"ev": "op", "op": op, "data": list(raw), "form": form, "big": bool(big), "wlen": len(self.tr.written),
               "nwr": len(self.tr.writes) - before, "err": err, "blocked": blocked, "inflated": [], "zlen": -1}
         self.events.append(ev)
         return ev
@@ -641,10 +706,11 @@ def behaviour_calls(beh: List[Tuple[str, dict]], maxsize: int) -> Tuple[dict, Li
     return mode, calls
 
 
-def replay_ops(kit: Kit, mode: dict, calls: List[Tuple[str, int, bool]], src: str) -> dict:
+def replay_ops(kit: Kit, mode: dict, calls: List[Tuple[str, int, bool]], src: str, salt: int = -1) -> dict:
+    """salt < 0: all data as bytes; else every data call gets a rotating non-bytes buffer form."""
     x = OpsExec(kit, mode["chunked"], mode["length"], mode["compress"])
-    for op, n, big in calls:
-        x.call(op, n, big)
+    for k, (op, n, big) in enumerate(calls):
+        x.call(op, n, big, choose_form(n, salt + k if salt >= 0 else -1, eof=(op == "write_eof")))
     return x.trace(src)
 
 
@@ -708,13 +774,14 @@ class Sink:
         pass
 
 
-PAYLOAD_KINDS = ["bytes", "bytearray", "str", "bytesio", "stringio", "file", "textio", "textio-crlf", "asyncgen",
+PAYLOAD_KINDS = ["bytes", "bytearray", "memoryview", "memoryview-items", "str", "bytesio", "stringio", "file", "textio", "textio-crlf", "asyncgen",
                  "multipart", "formdata", "formdata-urlencoded", "json"]
 
 
-# MultipartWriter keeps Payload.write_with_length's documented fall-back (the limit is ignored); an
-# application-declared Content-Length smaller than a multipart body is not driven
-NO_LENGTH_LIMIT = ("multipart", "formdata")
+# MultipartWriter keeps Payload.write_with_length's documented fall-back (the limit is ignored), and
+# BytesPayload cuts a multi-byte-item memoryview by items; an application-declared Content-Length smaller
+# than such a body is not driven
+NO_LENGTH_LIMIT = ("multipart", "formdata", "memoryview-items")
 
 
 def make_payload(kit: Kit, kind: str, chunks: List[bytes]) -> Tuple[Any, bytes]:
@@ -725,6 +792,10 @@ def make_payload(kit: Kit, kind: str, chunks: List[bytes]) -> Tuple[Any, bytes]:
         return whole, whole
     if kind == "bytearray":
         return bytearray(whole), whole
+    if kind == "memoryview":
+        return memoryview(whole), whole
+    if kind == "memoryview-items":              # itemsize 8 / 4 / 2 as the length allows: len() != nbytes
+        return as_form(whole, choose_form(len(whole), 0))[0], whole
     if kind == "str":
         return whole.decode("ascii"), whole
     if kind == "bytesio":
@@ -775,10 +846,43 @@ def payload_of(obj: Any) -> Any:
     return payload.PAYLOAD_REGISTRY.get(obj, disposition=None)
 
 
-def standalone(kit: Kit, kind: str, chunks: List[bytes]) -> Tuple[int, bytes, str]:
-    """Payload.size and the bytes the payload writes into a plain collecting writer."""
+REUSABLE = {"bytes", "bytearray", "memoryview", "memoryview-items", "str", "bytesio", "stringio", "file", "textio",
+            "multipart", "formdata", "formdata-urlencoded", "json"}
+MULTIPART_KINDS = ("multipart", "formdata")
+
+
+def apply_pre(kit: Kit, p: Any, steps: Sequence[str]) -> None:
+    """What an application may do with a payload object before (re)sending it: ask for its size, send
+    it once, change a header of the payload or of an appended part, append a part."""
+    from aiohttp import MultipartWriter
+    for st in steps:
+        if st == "size":
+            _ = p.size
+        elif st == "send":
+            kit.run(p.write(Sink()))
+            kit.loop.run_until_idle()
+        elif st == "mutate":
+            target = p
+            if isinstance(p, MultipartWriter) and len(p):
+                target = next(iter(p))[0]
+            if p.content_type.startswith("multipart/form-data") and target is not p:
+                target.set_content_disposition("form-data", name="field-renamed-after-the-size-was-read")
+            else:
+                target.set_content_disposition("attachment", filename="renamed-after-the-size-was-read.bin")
+            target.headers["X-Note"] = "changed-later"
+        elif st == "append":
+            if isinstance(p, MultipartWriter):
+                p.append(b"appended-after-the-size-was-read")
+        else:
+            raise MachineryError(f"unknown payload step {st}")
+
+
+def standalone(kit: Kit, kind: str, chunks: List[bytes], pre: Sequence[str] = ()) -> Tuple[int, bytes, str]:
+    """Payload.size and the bytes the payload writes into a plain collecting writer (after the
+    same preparatory steps as the payload that is really sent)."""
     obj, _ = make_payload(kit, kind, chunks)
     p = payload_of(obj)
+    apply_pre(kit, p, pre)
     size = p.size
     sink = Sink()
     kit.run(p.write(sink))
@@ -837,7 +941,10 @@ def run_recipe(kit: Kit, r: dict) -> dict:
             if r.get("z"):
                 resp.enable_compression(web.ContentCoding(r["z"]))
             await resp.prepare(req)
-            for k, c in enumerate(chunks):
+            for k, c0 in enumerate(chunks):
+                last = bool(r.get("eof_data")) and k == len(chunks) - 1
+                c = as_form(c0, choose_form(len(c0), r.get("forms", -1) + k if r.get("forms", -1) >= 0 else -1,
+                                            eof=last))[0]
                 if r.get("eof_data") and k == len(chunks) - 1:
                     await resp.write_eof(c)
                 else:
@@ -856,16 +963,20 @@ def run_recipe(kit: Kit, r: dict) -> dict:
                          bodyless=bodyless, recipe=r, err=err)
     if api == "response":
         req, tr, _w = kit.server_req(method=r.get("method", "GET"))
-        if kind not in ("bytes", "bytearray"):
-            psize, pwritten, pclass = standalone(kit, kind, chunks)
+        pre = r.get("pre") or []
+        if kind not in ("bytes", "bytearray") or pre:
+            psize, pwritten, pclass = standalone(kit, kind, chunks, pre)
         obj, entity = make_payload(kit, kind, chunks)
-        if entity is None:
+        if entity is None or "append" in pre:
             entity = pwritten
+        if pre:
+            obj = payload_of(obj)
+            apply_pre(kit, obj, pre)
 
         async def go2() -> None:
             from aiohttp import FormData
             body = obj() if isinstance(obj, FormData) else obj
-            if kind == "str":
+            if kind == "str" and not pre:
                 resp = web.Response(text=body, status=r.get("status", 200))
             else:
                 resp = web.Response(body=body, status=r.get("status", 200))
@@ -884,10 +995,14 @@ def run_recipe(kit: Kit, r: dict) -> dict:
         return msg_event(kind, "resp", bytes(tr.written), entity, z=r.get("z", ""), bodyless=bodyless,
                          psize=psize, pwritten=pwritten, recipe=r, err=err, pclass=pclass)
     if api == "client":
-        psize, pwritten, pclass = standalone(kit, kind, chunks)
+        pre = r.get("pre") or []
+        psize, pwritten, pclass = standalone(kit, kind, chunks, pre)
         obj, entity = make_payload(kit, kind, chunks)
-        if entity is None:
+        if entity is None or ("append" in pre and kind in MULTIPART_KINDS):
             entity = pwritten
+        if pre:
+            obj = payload_of(obj)
+            apply_pre(kit, obj, pre)
         headers = kit.CIMultiDict()
         if r.get("ulen", -1) >= 0:
             headers["Content-Length"] = str(r["ulen"])
@@ -930,20 +1045,33 @@ def recipes_from_calls(mode: dict, calls: List[Tuple[str, int, bool]], rng: Any,
     out.append({"api": "stream-response", "chunks": chunks, "eof_data": eof_data, "chunked": mode["chunked"],
                 "ulen": ulen, "z": "deflate" if mode["compress"] else "",
                 "http10": (k % 7 == 3) and not mode["chunked"],
-                "drain": 0 if any(op == "drain" for op, _n, _b in calls) and chunks else -1})
+                "drain": 0 if any(op == "drain" for op, _n, _b in calls) and chunks else -1,
+                "forms": k if k % 2 else -1})
     kind = PAYLOAD_KINDS[k % len(PAYLOAD_KINDS)]
     if kind in ("str", "stringio", "textio", "textio-crlf", "formdata-urlencoded", "json", "multipart", "formdata"):
         pchunks = nonempty
     else:
         pchunks = chunks
+    pre = pre_steps(kind, k // len(PAYLOAD_KINDS))
     out.append({"api": "response", "kind": kind if kind != "asyncgen" else "bytes", "chunks": pchunks,
-                "chunked": mode["chunked"], "z": ("deflate", "gzip")[k % 2] if mode["compress"] else ""})
+                "chunked": mode["chunked"], "z": ("deflate", "gzip")[k % 2] if mode["compress"] else "",
+                "pre": pre if kind != "asyncgen" else []})
     carg = [None, True, False][k % 3] if not mode["compress"] else None
     culen = mode["length"] if (carg is None and not mode["compress"] and mode["length"] >= 0 and k % 2 == 0
                                and kind not in NO_LENGTH_LIMIT) else -1
     out.append({"api": "client", "kind": kind, "chunks": pchunks, "chunked_arg": carg, "ulen": culen,
-                "z": "deflate" if mode["compress"] else ""})
+                "z": "deflate" if mode["compress"] else "", "pre": pre})
     return out
+
+
+def pre_steps(kind: str, j: int) -> List[str]:
+    """Rotating preparatory histories of a payload object (see apply_pre)."""
+    opts: List[List[str]] = [[], ["size", "mutate"], ["size"]]
+    if kind in REUSABLE:
+        opts += [["send"], ["send", "mutate"]]
+    if kind in MULTIPART_KINDS:
+        opts += [["size", "append"], ["send", "append", "size", "mutate"]]
+    return opts[j % len(opts)]
 
 
 def fixed_recipes() -> List[dict]:
@@ -951,7 +1079,16 @@ def fixed_recipes() -> List[dict]:
     out: List[dict] = []
     ch = [(0, 3), (3, 0), (3, 2)]
     for kind in PAYLOAD_KINDS:
-        pc = [c for c in ch if c[1] > 0]
+        pc = [c for c in ch if c[1] > 0] if kind != "memoryview-items" else [(0, 6), (6, 2)]
+        # the payload object has a history before it is sent: size read, sent once, header changed, part appended
+        for j in range(1, 7):
+            pre = pre_steps(kind, j)
+            if pre and pre not in [r.get("pre") for r in out if r.get("kind") == kind]:
+                out.append({"api": "client", "kind": kind, "chunks": pc, "chunked_arg": None, "ulen": -1, "z": "",
+                            "pre": pre})
+                if kind != "asyncgen":
+                    out.append({"api": "response", "kind": kind, "chunks": pc, "chunked": False, "z": "",
+                                "pre": pre})
         for carg in (None, True, False):
             out.append({"api": "client", "kind": kind, "chunks": pc, "chunked_arg": carg, "ulen": -1, "z": ""})
         out.append({"api": "client", "kind": kind, "chunks": pc, "chunked_arg": None, "ulen": -1, "z": "deflate"})
@@ -970,6 +1107,10 @@ def fixed_recipes() -> List[dict]:
         for eof_data in (False, True):
             out.append({"api": "stream-response", "chunks": ch, "eof_data": eof_data, "chunked": False, "ulen": ulen,
                         "z": ""})
+    for forms in range(7):                         # first chunk 8 bytes: every buffer form applies
+        for chunked in (False, True):
+            out.append({"api": "stream-response", "chunks": [(0, 8), (8, 4), (12, 2)], "eof_data": forms % 2 == 0,
+                        "chunked": chunked, "ulen": -1, "z": "", "forms": forms})
     return out
 
 
@@ -994,19 +1135,20 @@ def signature_of(t: dict, v: Any) -> str:
         where = {"ser": "MultipartWriter.write", "op": "StreamWriter"}.get(ev["ev"]) or ev.get("recipe", {}).get("api", "?")
         return f"{v.clause} via {where}: {NAMED_DEVIATIONS[v.clause]}"
     if ev["ev"] == "ser":
-        return f"{v.clause} in {ev['scen']} with classes {'+'.join(sorted(set(ev['cls'])))}"
+        return (f"{v.clause} in {ev['scen']} ({ev['place']}) with classes "
+                f"{'+'.join(sorted(set(G.classes_of(ev['orig']))))}")
     if ev["ev"] == "msg":
         r = ev.get("recipe", {})
         bits = [r.get("api", "?"), "kind=" + ev["kind"]]
-        for k in ("chunked_arg", "chunked", "ulen", "z", "method", "status", "eof_data"):
+        for k in ("chunked_arg", "chunked", "ulen", "z", "method", "status", "eof_data", "pre"):
             if k in r and r[k] not in (None, "", -1, False):
                 bits.append(f"{k}={r[k]}")
             elif k == "chunked_arg" and k in r and r[k] is False:
                 bits.append("chunked_arg=False")
         return f"{v.clause} " + " ".join(bits)
     c = t["cfg"]
-    return (f"{v.clause} on StreamWriter.{ev['op']} chunked={c['chunked']} length={c['length']} "
-            f"compress={c['compress']}")
+    return (f"{v.clause} on StreamWriter.{ev['op']}({ev.get('form', 'bytes')}) chunked={c['chunked']} "
+            f"length={c['length']} compress={c['compress']}")
 
 
 _pool: Optional[ThreadPoolExecutor] = None
@@ -1016,7 +1158,7 @@ _pending: List[Tuple[Any, List[dict], str]] = []
 def pool() -> ThreadPoolExecutor:
     global _pool
     if _pool is None:
-        _pool = ThreadPoolExecutor(max_workers=10)
+        _pool = ThreadPoolExecutor(max_workers=12)
     return _pool
 
 
@@ -1042,7 +1184,8 @@ def settle(ctx: Ctx) -> None:
                 ctx.drift(d[1])
             ev0 = t["events"][0] if t["events"] else {}
             if ev0.get("ev") == "ser":
-                ctx.distinct.add(("ser", ev0["scen"], ev0["out"], tuple(sorted(set(ev0["cls"]))), ev0["enc"]))
+                ctx.distinct.add(("ser", ev0["scen"], ev0["place"], ev0["out"],
+                                  tuple(sorted(set(G.classes_of(ev0["orig"])))), ev0["enc"]))
             elif ev0.get("ev") == "msg":
                 ctx.distinct.add(("msg", json.dumps(ev0.get("recipe", {}), sort_keys=True)))
             else:
@@ -1128,8 +1271,7 @@ PRIMARY = {"client.target", "client.target-encoded", "client.header-name", "clie
 
 # positions guarded by a white-list (token characters only): every other code point is refused alone, so a
 # block never passes; the thorough tier walks 0x800..0x1FFF singly there and samples the rest
-WHITELISTS = {"client.method", "client.cookie-name", "server.set_cookie-name", "client.multipart-boundary",
-              "formdata.name"}
+WHITELISTS = {"client.method", "client.cookie-name", "server.set_cookie-name", "client.multipart-boundary"}
 
 FAST_PATHS = ["WriteCoalesced", "WriteEofCoalesced", "WriteEofCoalescedZ", "SetEofCoalesced"]
 
@@ -1146,7 +1288,7 @@ def msg_trace(ev: dict, src: str) -> dict:
 class Acc:
     """Collects traces and hands them to TLC in large batches (JVM start-up dominates small ones)."""
 
-    def __init__(self, ctx: Ctx, label: str, limit: int = 5000) -> None:
+    def __init__(self, ctx: Ctx, label: str, limit: int = 3000) -> None:
         self.ctx, self.label, self.limit, self.buf = ctx, label, limit, []
 
     def add(self, t: dict) -> None:
@@ -1180,17 +1322,20 @@ def start_models(ctx: Ctx) -> Dict[str, Any]:
     }
 
 
+def is_edge(cp: int) -> bool:
+    """Code points that line-oriented code may treat as a terminator or as white space: they are also
+    tried as the FIRST and as the LAST character of a token (anchors such as `$`, strip(), splitlines())."""
+    return cp <= 0x20 or 0x7F <= cp <= 0xA0 or cp in (0x1680, 0x2028, 0x2029, 0x3000, 0xFEFF) or 0x2000 <= cp <= 0x200B
+
+
 def run_part_a(ctx: Ctx, kit: Kit, scen: List[Scenario], pre: Dict[str, Any]) -> None:
-    # ---- 1. bounded model of the rule
-    res = pre["ser_model"].result()
-    ctx.expect_model_ok("HttpWriterSerMC(MaxLen=3)", res)
-    ctx.log(f"SerializeRule model: {res.distinct} (position, class string) states, ok={res.ok}, {res.wall_s:.0f}s")
-    # ---- 2. spec -> code: every class string TLC lists, in every scenario of its position
+    # ---- 1. spec -> code: every (position, placement, class string) TLC lists, in every scenario
+    #         bound to that position
     behs, res2 = pre["ser_cover"].result()
-    pairs = set()
+    triples = set()
     for beh in behs:
         for _label, st in beh:
-            pairs.add((st["pos"], tuple(st["str"])))
+            triples.add((st["pos"], st["place"], tuple(st["str"])))
     by_pos: Dict[str, List[Scenario]] = {}
     for sc in scen:
         if sc.pos:
@@ -1199,37 +1344,48 @@ def run_part_a(ctx: Ctx, kit: Kit, scen: List[Scenario], pre: Dict[str, Any]) ->
     by_pos["target"] = [s for s in scen if s.special == "target"]
     acc = Acc(ctx, "serialisation")
     nrun = 0
-    first: List[dict] = []
-    for pos, cls in sorted(pairs):
+    for pos, place, cls in sorted(triples):
         for sc in by_pos.get(pos, []):
-            if sc.whole and not cls:
+            if place not in sc.places or (not cls and (sc.whole or place == "whole")):
                 continue
             variants = G.concretise(cls, ctx.rng, ctx.pick(0, 2))
             for k, cps in enumerate(variants):
-                t = ser_trace(sc.event(kit, cps, tbl=(k == 0)), "tlc-cover")
+                ev = sc.event(kit, cps, tbl=(k == 0), place=place)
+                if ev is None:
+                    continue
+                t = ser_trace(ev, "tlc-cover")
                 if nrun % 997 == 5:
                     ctx.sample(sample_of(t), cap=2)
                 acc.add(t)
                 nrun += 1
-    ctx.log(f"class strings: {len(pairs)} (position, string) pairs from TLC, {nrun} executions")
-    ctx.extra["class_string_pairs"] = len(pairs)
-    # ---- 3. every code point in every scenario.  Alone below `single_below`; the rest in blocks of
-    #         consecutive code points: an emitted block is judged as one string (the line must equal
-    #         the encoding of all its members), a refused block is split until every refused code
-    #         point has been refused alone with zero bytes written.
+    ctx.log(f"class strings: {len(triples)} (position, placement, string) triples from TLC, {nrun} executions")
+    ctx.extra["class_string_triples"] = len(triples)
+    ctx.extra["placements_not_expressible"] = {sc.name: [p for p, t in sc.tmpl.items() if t is None]
+                                               for sc in scen if any(t is None for t in sc.tmpl.values())}
+    # ---- 2. every code point in every scenario.  Alone below `single_below` (edge code points also
+    #         first and last in their token); the rest in blocks of consecutive code points: an emitted
+    #         block is judged as one string (the line must equal the encoding of all its members), a
+    #         refused block is split until every refused code point has been refused alone with zero
+    #         bytes written.
     single_below = ctx.pick(0x100, 0x800)
     extra = [c for c in G.single_code_points(ctx.quick, ctx.rng, sample=ctx.pick(24, 2048)) if c >= 0x800]
     full = [(0x800, 0xD7FF), (0xD800, 0xDFFF), (0xE000, 0x10FFFF)]
     bmp = [(0x800, 0xD7FF), (0xD800, 0xDFFF), (0xE000, 0xFFFF)]
     counts: Dict[str, Dict[str, int]] = {}
-    nblocks = 0
+    nblocks = nedge = 0
     for sc in scen:
         c = counts.setdefault(sc.name, {"emitted": 0, "refused": 0})
         for cp in list(range(single_below)) + extra:
             ev = sc.event(kit, [cp], tbl=False)
             c[ev["out"]] += 1
             acc.add(ser_trace(ev, "sweep"))
-        ranges = ctx.pick([(single_below, 0x7FF)],
+            if sc.ctx is not None and (is_edge(cp) or not ctx.quick):
+                for place in ("start", "end"):
+                    ev = sc.event(kit, [cp], tbl=False, place=place)
+                    if ev is not None:
+                        acc.add(ser_trace(ev, "sweep-edge"))
+                        nedge += 1
+        ranges = ctx.pick([(single_below, 0x2FF if sc.name in WHITELISTS else 0x7FF)],
                           full if sc.name in PRIMARY else [(0x800, 0x1FFF)] if sc.name in WHITELISTS else bmp)
         # the decoders of the encoded positions recurse per byte and copy: keep their lines short
         bsize = 16 if sc.enc != "raw" else ctx.pick(64, 128)
@@ -1248,14 +1404,17 @@ def run_part_a(ctx: Ctx, kit: Kit, scen: List[Scenario], pre: Dict[str, Any]) ->
                         c[ev["out"]] += len(b)
                     acc.add(ser_trace(ev, "blocks"))
                     nblocks += 1
-    ctx.log(f"code points: {single_below}+{len(extra)} alone, {nblocks} block executions, in each of {len(scen)} scenarios")
+    ctx.log(f"code points: {single_below}+{len(extra)} alone (+{nedge} first/last placements), {nblocks} block "
+            f"executions, over {len(scen)} scenarios")
     ctx.extra["code_point_outcomes_per_scenario"] = counts
-    # ---- 4. random hostile strings
+    # ---- 3. random hostile strings, random placement
     for cps in G.random_strings(ctx.rng, ctx.pick(60, 1500)):
         for sc in scen:
             if sc.whole and not cps:
                 continue
-            acc.add(ser_trace(sc.event(kit, cps, tbl=False), "random"))
+            ev = sc.event(kit, cps, tbl=False, place=ctx.rng.choice(sc.places))
+            if ev is not None and (cps or ev["place"] != "whole"):
+                acc.add(ser_trace(ev, "random"))
     acc.flush()
 
 
@@ -1288,7 +1447,16 @@ def run_part_b(ctx: Ctx, kit: Kit, pre: Dict[str, Any]) -> None:
         mode, calls = random_calls(ctx.rng)
         seqs.append((mode, calls, "random"))
     ctx.log(f"call sequences: {ncover} transition-cover paths, {len(sims)} simulated, {len(seqs) - ncover - len(sims)} random")
-    traces = [replay_ops(kit, mode, calls, src) for mode, calls, src in seqs]
+    # every transition-cover path once with bytes and once with rotating buffer forms (bytearray, byte and
+    # multi-byte-item / 2-D memoryviews); simulated and random sequences with a seeded mix
+    traces = []
+    for k, (mode, calls, src) in enumerate(seqs):
+        if src == "tlc-cover":
+            traces.append(replay_ops(kit, mode, calls, src))
+            if any(op in ("write", "write_eof") and n > 0 for op, n, _b in calls):
+                traces.append(replay_ops(kit, mode, calls, src + "-forms", salt=k))
+        else:
+            traces.append(replay_ops(kit, mode, calls, src, salt=ctx.rng.randint(0, 6) if k % 3 else -1))
     ctx.sample(sample_of(traces[min(len(traces) - 1, 17)]))
     for k in range(0, len(traces), 1500):
         judge(ctx, traces[k:k + 1500], "stream-writer-ops")
@@ -1296,10 +1464,12 @@ def run_part_b(ctx: Ctx, kit: Kit, pre: Dict[str, Any]) -> None:
     # ---- 3. complete messages through the public API, every payload class
     recipes = fixed_recipes()
     stride = ctx.pick(6, 2)
+    used = 0
     for k, (mode, calls, _src) in enumerate(seqs):
         if k % stride == 0:
             if any(op in ("write", "write_eof") for op, _n, _b in calls):
-                recipes += recipes_from_calls(mode, calls, ctx.rng, k)
+                recipes += recipes_from_calls(mode, calls, ctx.rng, used)   # `used` rotates kinds and histories
+                used += 1
     traces = []
     sizes: Dict[str, Dict[str, int]] = {}
     for r in recipes:
@@ -1333,6 +1503,9 @@ def run(ctx: Ctx) -> None:
         "one caller at a time on a StreamWriter; write()/write_headers() after eof and a second write_headers() "
         "are outside the documented API and not issued",
         "set_eof() is not issued after data went through a compressor (it does not flush; documented as 'no body')",
+        "write() gets bytes, bytearray and memoryviews of item size 1/2/4/8 and 2-D casts (all C-contiguous: "
+        "transports reject others); write_eof() is documented for bytes and only gets buffers whose len() is their "
+        "byte count",
         "yarl decides the request-target: the supplied target is url.raw_path_qs; only CR/LF freedom and equality "
         "of the emitted line with it are judged",
         "zlib is a black box: the harness inflates the de-framed body once, TLA+ compares the result with the data",
@@ -1351,6 +1524,10 @@ def run(ctx: Ctx) -> None:
         pre = start_models(ctx)
         run_part_a(ctx, kit, scen, pre)
         run_part_b(ctx, kit, pre)
+        res = pre["ser_model"].result()
+        ctx.expect_model_ok("HttpWriterSerMC(MaxLen=3)", res)
+        ctx.log(f"SerializeRule model: {res.distinct} (position, placement, class string) states, ok={res.ok}, "
+                f"{res.wall_s:.0f}s")
         settle(ctx)
         ctx.evaluations = ctx.traces
     finally:
@@ -1415,9 +1592,10 @@ def selftest(ctx: Ctx) -> int:
                 print(f"selftest: trace {k} expected clause {c}, got {got[k][1]}")
                 ok = False
         # ---- (ii) spec-level mutants must be caught by TLC
-        r = run_tlc("HttpWriterSerMC", ser_cfg(2, "lf-only"), workers=4, timeout=600, deadlock=False)
-        print("mutant SerializeRule lf-only:", r.violated)
-        ok = ok and r.violated == "InvTodayAllowed"
+        for mut in ("lf-only", "dollar-anchor"):
+            r = run_tlc("HttpWriterSerMC", ser_cfg(2, mut), workers=4, timeout=600, deadlock=False)
+            print(f"mutant SerializeRule {mut}:", r.violated)
+            ok = ok and r.violated == "InvTodayAllowed"
         for mut, inv in (("eof-no-trunc", ("InvLengthRespected", "InvChunkedDecodes")),
                          ("empty-chunk", ("InvChunkedDecodes", "InvNoEmptyChunk")),
                          ("hdr-twice", ("InvHdrOnceFirst",)),
@@ -1450,14 +1628,15 @@ def replay(ctx: Ctx, path: str) -> int:
         if ev0["ev"] == "ser":
             sc = {s.name: s for s in build_scenarios()}[ev0["scen"]]
             cps = payload["detail"].get("supplied") or _supplied_of(ev0)
-            new = ser_trace(sc.event(kit, cps, tbl=False), "replay")
+            new = ser_trace(sc.event(kit, cps, tbl=False, place=ev0.get("place")), "replay")
         elif ev0["ev"] == "msg":
             new = msg_trace(run_recipe(kit, ev0["recipe"]), "replay")
         else:
             c = t["cfg"]
-            calls = [(e["op"], len(e["data"]), bool(e["big"])) for e in t["events"]]
-            new = replay_ops(kit, {"chunked": c["chunked"], "length": c["length"], "compress": c["compress"]},
-                             calls, "replay")
+            x = OpsExec(kit, c["chunked"], c["length"], c["compress"])
+            for e in t["events"]:
+                x.call(e["op"], len(e["data"]), bool(e["big"]), e.get("form", "bytes"))
+            new = x.trace("replay")
         vs, _ = validate_batch("HttpWriterTrace", "HttpWriterTrace.cfg", [strip_for_tlc(new)], env=TLC_ENV)
         v = vs[0]
         print(f"replay: ok={v.ok} clause={v.clause!r} pos={v.pos}/{v.total}")
